@@ -7,7 +7,7 @@ use vcore::rt::{self, digest_str, esc, Acc, Args, Report};
 use vcore::sgr::{self, from_style, to_style, MColor, MStyle, UL_KINDS};
 use vcore::vt::{self, Ev};
 
-const RULE: &str = "Styles: exhaustively all 4096 effect sets; all 16 palette + 256 indexed colours and all 256 values of each RGB component in each of the three colour slots; seeded random full styles; the longest renderings (all effects with three-digit RGB colours in every slot). For each style: (1) rendered text strips to nothing and the reference parser sees only plain CSI..m events, (2) the reference SGR interpreter from the default state reproduces fg/bg/underline colour/effects (palette underline colour k comes back as index k; when several underline kinds are set any one of them is accepted), (3) reset form empty iff plain, otherwise it restores the default state, (4) Display == Style::render() == write_to bytes (into a Vec and into writers that accept only 1, 2, 5 or 7 bytes per call), write_reset_to == render_reset, (5) every format spec of the grid (width x fill/align x precision x alternate) gives the same bytes as the plain spec. Non-trivial = style has at least one effect or colour (distinct by style value; for the grid: distinct (style, spec) with a width or precision that would alter a plain &str).";
+const RULE: &str = "Styles: exhaustively all 4096 effect sets, alone and combined with each of the 16 palette + 256 indexed colours in each slot; all 16 palette + 256 indexed colours and all 256 values of each RGB component in each of the three colour slots; seeded random full styles; the longest renderings (all effects with three-digit RGB colours in every slot). For each style: (1) rendered text strips to nothing and the reference parser sees only plain CSI..m events, (2) the reference SGR interpreter from the default state reproduces fg/bg/underline colour/effects (palette underline colour k comes back as index k; when several underline kinds are set any one of them is accepted), (3) reset form empty iff plain, otherwise it restores the default state, (4) Display == Style::render() == write_to bytes (into a Vec and into writers that accept only 1, 2, 5 or 7 bytes per call), write_reset_to == render_reset, (5) every format spec of the grid (width x fill/align x precision x alternate) gives the same bytes as the plain spec. Non-trivial = style has at least one effect or colour (distinct by style value; for the grid: distinct (style, spec) with a width or precision that would alter a plain &str).";
 
 fn arb_color() -> impl Strategy<Value = MColor> {
     prop_oneof![
@@ -100,6 +100,20 @@ fn write_bytes_dribble(k: usize, f: impl FnOnce(&mut dyn std::io::Write) -> std:
     let mut d = Dribble(Vec::new(), k);
     f(&mut d).map_err(|e| format!("write failed on a writer taking {k} byte(s) per call: {e}"))?;
     Ok(d.0)
+}
+
+/// the core of oracles 1, 2 and 4 (pure SGR, round trip, Display == write_to), cheap enough for
+/// large products
+fn check_style_core(m: MStyle) -> Result<(), String> {
+    let style = to_style(m);
+    let disp = format!("{style}").into_bytes();
+    only_sgr(&disp, "Display")?;
+    expect_roundtrip(m, sgr::final_style(&disp), &disp)?;
+    let w = write_bytes(|w| style.write_to(w))?;
+    if w != disp {
+        return Err(format!("write_to gives {} but Display gives {}", esc(&w), esc(&disp)));
+    }
+    Ok(())
 }
 
 /// oracles 1-4 on one style
@@ -438,6 +452,35 @@ fn run(args: &Args, rep: &mut Report) {
         acc
     });
     rep.add("slot-interactions", true, "8 x 8 x 8 colour assignments to (fg, bg, underline) incl. unset and equal colours x 4 effect sets", accs);
+
+    // the full product effect set x palette / indexed colour, per slot: an interaction between one
+    // particular effect set and one particular colour cannot hide
+    let accs = rt::par(rt::workers(), |w| {
+        let n = rt::workers();
+        let mut acc = Acc::new();
+        for e in (0..4096u16).filter(|e| *e as usize % n == w) {
+            for k in 0..272u16 {
+                let c = if k < 16 { MColor::Ansi(k as u8) } else { MColor::Idx((k - 16) as u8) };
+                for slot in 0..3 {
+                    let mut m = MStyle { effects: e, ..Default::default() };
+                    match slot {
+                        0 => m.fg = Some(c),
+                        1 => m.bg = Some(c),
+                        _ => m.ul = Some(c),
+                    }
+                    acc.eval();
+                    acc.nontrivial_distinct();
+                    if let Err(err) = rt::guarded(|| check_style_core(m)) {
+                        acc.fail("effects-x-colours", style_json(&m), err);
+                        return acc;
+                    }
+                }
+            }
+        }
+        acc.samples.push(json!({"effects": "DIMMED|BLINK", "fg": "Ansi256(25)"}));
+        acc
+    });
+    rep.add("effects-x-colours", true, "all 4096 effect sets x (16 palette + 256 indexed colours) x 3 slots: round trip of Display and write_to", accs);
 
     // longest renderings: all twelve effects (or all but one) with the longest spelling of a colour in
     // every slot - the sizes at which a fixed-capacity buffer would overflow
